@@ -2,20 +2,25 @@
 C12 — order/identity-sensitive sites of FFCx, as functions from "what a set iteration yields"
 (a list in ARBITRARY order) or from a counter value to the text fragment they influence.
 
-Core Lean only.  The model mirrors the code AS IT IS: an unsorted `list(set(...))` is modelled as
-the identity on the (arbitrary) iteration order, so the corresponding invariance statement is FALSE
-and `FfcxProofs/C12.lean` proves a two-permutation counterexample for it.
+Core Lean only.  The model mirrors the code AS IT IS.  An unsorted iteration over a set is modelled as the
+identity on the (arbitrary) iteration order, so that its invariance statement is FALSE and `FfcxProofs/C12.lean`
+proves a two-permutation counterexample (today only the two int-keyed sets, canonical by a CPython detail).
+History: up to /repo commit 9fb79f1 the sites fuse_sections / generate_block_parts (`list(set(...))`),
+build_optimized_tables (`sort_elements(set(...))`), generate_geometry_tables (`for c in cell_list`) and
+J_component (`ufl_id()`) were order/counter leaking (DESIGN F9; counterexample theorems then); the fix commits
+d2dfc42, 7e76306, e98a00c, 8598377 replaced them by first-occurrence de-duplication of a LIST, `sorted`, and a
+per-kernel domain numbering; the model below is the fixed code.
 
 Anchors (pinned tree):
-  optimizer.py:61,63            fuse_sections          input/output = list(set(...))
-  integral_generator.py:583     generate_block_parts   input = list(set(input))
+  optimizer.py:62,64            fuse_sections          input/output = list(dict.fromkeys(...))
+  integral_generator.py:585     generate_block_parts   input = list(dict.fromkeys(input))
   C/formatter.py:206-207        format_section         "// Inputs: a, b" / "// Outputs: ..."
   lnodes.py:886-889             Section.__init__       declared symbols appended to output
-  elementtables.py:393-396      build_optimized_tables sort_elements(set(extract_sub_elements(..)))
+  elementtables.py:393-397      build_optimized_tables sort_elements(list(dict.fromkeys(extract_sub_elements(..))))
   analysis.py:104,105           analyze_ufl_objects    sort_elements(set(elements)); sorted(set(..), key=repr)
   ufl/utils/sorting.py          topological_sorting    (UFL, transcribed below)
-  symbols.py:141                J_component            f"J{domain.ufl_id()}"
-  integral_generator.py:217-232 generate_geometry_tables  cells[t] : set of cell names, iterated
+  symbols.py:79-80,142-148      J_component            f"J{self.domain_numbers.setdefault(domain, len(self.domain_numbers))}"
+  integral_generator.py:217-233 generate_geometry_tables  cells[t] : set of cell names, `for c in sorted(cell_list)`
   representation.py:274, codegeneration.py:59          sets of basix.CellType (int-hashed)
   integral.py:258-261           _argkeys               set of small ints, list(...)
   integral.py:346-375           active_table_names     set of names -> dict -> emitted via sorted(tables)
@@ -51,6 +56,15 @@ def lexLe : List Nat → List Nat → Bool
   | _ :: _, [] => false
   | a :: as, b :: bs => if a < b then true else if b < a then false else lexLe as bs
 
+/-- Python `str` comparison (lexicographic by code point), for `sorted(cell_list)`. -/
+def strLe (a b : String) : Bool := decide (a ≤ b)
+
+/-- `list(dict.fromkeys(xs))`: duplicates removed, order of FIRST occurrence kept.  A function of the list:
+no hash enters (a dict iterates in insertion order). -/
+def dedupFirst {α : Type} [DecidableEq α] : List α → List α
+  | [] => []
+  | a :: l => a :: (dedupFirst l).filter (fun b => b ≠ a)
+
 /-! ## Text fragments -/
 
 def commaJoin (xs : List String) : String := ", ".intercalate xs
@@ -65,29 +79,29 @@ def outputsComment (output : List String) : String := "// Outputs: " ++ commaJoi
 def sectionOutput (output decls : List String) : List String :=
   decls.foldl (fun out d => if out.contains d then out else out ++ [d]) output
 
-/-! ## Order-leaking sites (unsorted `list(set(...))` of `str`-hashed objects) -/
+/-! ## De-duplication of symbol lists (was `list(set(...))`, now first occurrence) -/
 
-/-- `fuse_sections`, input list: `input = list(set(input))` goes unchanged into the fused `Section`
-and is printed by the formatter. The argument is the set's iteration order. -/
-def site_fuse_inputs (it : List String) : String := inputsComment it
+/-- `fuse_sections`, input list: `input = list(dict.fromkeys(input))` goes unchanged into the fused `Section`
+and is printed by the formatter. The argument is the concatenation of the fused sections' input lists. -/
+def site_fuse_inputs (input : List String) : String := inputsComment (dedupFirst input)
 
-/-- `fuse_sections`, output list: `output = list(set(output))`, then `Section.__init__` appends the
+/-- `fuse_sections`, output list: `output = list(dict.fromkeys(output))`, then `Section.__init__` appends the
 declared symbols that are missing, then the formatter prints it. -/
-def site_fuse_outputs (decls : List String) (it : List String) : String :=
-  outputsComment (sectionOutput it decls)
+def site_fuse_outputs (decls : List String) (output : List String) : String :=
+  outputsComment (sectionOutput (dedupFirst output) decls)
 
-/-- `generate_block_parts`: `input = list(set([*vars, *tables]))` of the "Tensor Computation" section. -/
-def site_block_inputs (it : List String) : String := inputsComment it
+/-- `generate_block_parts`: `input = list(dict.fromkeys([*vars, *tables]))` of the "Tensor Computation" section. -/
+def site_block_inputs (input : List String) : String := inputsComment (dedupFirst input)
 
-/-- `generate_geometry_tables`: for one geometry quantity, `for c in cells[t]` emits one table per cell name,
-in set order (`geometry.write_table(name, c)` declares `<cell>_<name>`). -/
+/-- `generate_geometry_tables`: for one geometry quantity, `for c in sorted(cells[t])` emits one table per cell
+name (`geometry.write_table(name, c)` declares `<cell>_<name>`); `it` is the set's iteration order. -/
 def site_geometry_tables (tableName : String) (it : List String) : List String :=
-  it.map (fun c => c ++ "_" ++ tableName)
+  (pySorted strLe it).map (fun c => c ++ "_" ++ tableName)
 
 /-! ### `ufl.algorithms.sort_elements` (UFL `topological_sorting`, transcribed)
 
-Elements are numbers; `subs e` is `e.sub_elements`.  `nodes` is `list(elements)` where `elements` is the
-set: the iteration order of the set is the ONLY thing that breaks ties between unrelated elements. -/
+Elements are numbers; `subs e` is `e.sub_elements`.  `nodes` is `list(elements)`: the order of the argument is
+the ONLY thing that breaks ties between unrelated elements (so it must not be a set's iteration order). -/
 
 abbrev Elem := Nat
 abbrev Edges := List (Elem × List Elem)     -- the dict `edges`, in insertion (= nodes) order
@@ -135,10 +149,18 @@ def sortElements (subs : Elem → List Elem) (it : List Elem) : List Elem :=
 /-- `generate_psi_table_name`: `FE{element_number}_…` (the rest of the name does not depend on the numbering). -/
 def tableName (number : Nat) (suffix : String) : String := "FE" ++ toString number ++ "_" ++ suffix
 
-/-- `build_optimized_tables`: `element_numbers = {e: i for i, e in enumerate(sort_elements(set(...)))}`; the
-table of each modified terminal (element `q`, in the deterministic terminal order `queries`) is named after
-the element's number. -/
+/-- `build_optimized_tables`: `element_numbers = {e: i for i, e in enumerate(sort_elements(list(dict.fromkeys(
+extract_sub_elements(all_elements)))))}`; the table of each modified terminal (element `q`, in the deterministic
+terminal order `queries`) is named after the element's number.  `elems` is the LIST `extract_sub_elements(...)`
+(elements of the modified terminals in terminal order, then their sub-elements, level by level). -/
 def site_table_numbering (subs : Elem → List Elem) (suffix : Elem → String) (queries : List Elem)
+    (elems : List Elem) : List String :=
+  let order := sortElements subs (dedupFirst elems)
+  queries.map (fun q => tableName (order.idxOf q) (suffix q))
+
+/-- the same computation for an ARBITRARY node order (what the code did with a set, and what `analysis.py:104`
+still does for a numbering that never reaches the text) -/
+def tableNumberingOfOrder (subs : Elem → List Elem) (suffix : Elem → String) (queries : List Elem)
     (it : List Elem) : List String :=
   let order := sortElements subs it
   queries.map (fun q => tableName (order.idxOf q) (suffix q))
@@ -156,10 +178,15 @@ def restrictionSuffix : Option Bool → String
   | some false => "_r0"
   | some true => "_r1"
 
-/-- `J_component`: `format_mt_name(f"J{domain.ufl_id()}", mt)`.  `uflId` is UFL's global `Mesh` counter at
-the time the mesh was created = the number of meshes created before it in this process. -/
-def site_jacobian_symbol (restriction : Option Bool) (component : Nat) (uflId : Nat) : String :=
-  "J" ++ toString uflId ++ restrictionSuffix restriction ++ "_c" ++ toString component
+/-- `self.domain_numbers.setdefault(domain, len(self.domain_numbers))` after the calls for `uses` (the
+domains, identified by their `ufl_id()`, in the order in which this kernel's `J_component` calls meet them):
+the number of DISTINCT domains met before the first use of `d`. -/
+def domainNumber (uses : List Nat) (d : Nat) : Nat := (dedupFirst uses).idxOf d
+
+/-- `J_component`: `format_mt_name(f"J{number}", mt)` with the per-kernel number above.  UFL's global `Mesh`
+counter enters only through the identity of the keys of `domain_numbers`. -/
+def site_jacobian_symbol (restriction : Option Bool) (component : Nat) (uses : List Nat) (d : Nat) : String :=
+  "J" ++ toString (domainNumber uses d) ++ restrictionSuffix restriction ++ "_c" ++ toString component
 
 /-- `fi1.index(i.count())` (indexing.py:59,134; reconstruct.py:118-121): the POSITION of an index count in the
 tuple of free-index counts. -/
@@ -266,7 +293,7 @@ def generatorInstances (kernels : List (List String)) : List GenState :=
 * `oblivious`  only membership / emptiness / equality / singleton unpacking / never read
 * `irrelevant` the order (or the state) cannot reach the generated text (reason in `note`)
 * `intset`     a set of int-hashed keys, iterated unsorted: canonical only by the CPython detail `Ascending`
-* `leak`       order or counter value reaches the text (counterexample theorem + partial theorem)
+* `leak`       order or counter value reaches the text (counterexample theorem + partial theorem) — none today
 * `counter`    per-instance state, fresh for every kernel (`counters_fresh`)
 * `identity`   `id(obj)` used as a lookup key only
 * `hashdef`    a `__hash__` definition: decides WHICH iteration order occurs; every theorem here quantifies over all of them
@@ -296,6 +323,25 @@ def Modelled.key (m : Modelled) : String × String × String := (m.file, m.func,
 
 open SiteClass in
 def modelledSites : List Modelled := [
+  -- sites repaired by the fix commits d2dfc42, 7e76306, e98a00c, 8598377 (were `leak`)
+  ⟨"ffcx/codegeneration/optimizer.py", "fuse_sections", "340a3597d3e9", canon, "site_fuse_inputs",
+   ["site_invariant_fuse_inputs"], "input = list(dict.fromkeys(input)) -> // Inputs:"⟩,
+  ⟨"ffcx/codegeneration/optimizer.py", "fuse_sections", "1b174d231d51", canon, "site_fuse_outputs",
+   ["site_invariant_fuse_outputs"], "output = list(dict.fromkeys(output)) -> // Outputs:"⟩,
+  ⟨"ffcx/codegeneration/integral_generator.py", "IntegralGenerator.generate_block_parts", "340a3597d3e9", canon, "site_block_inputs",
+   ["site_invariant_block_inputs"], "input = list(dict.fromkeys(input)) -> // Inputs: of Tensor Computation"⟩,
+  ⟨"ffcx/ir/elementtables.py", "build_optimized_tables", "4d4d494dbde5", canon, "site_table_numbering",
+   ["site_invariant_table_numbering"], "sort_elements(list(dict.fromkeys(extract_sub_elements(...)))) -> FE<n> names"⟩,
+  ⟨"ffcx/codegeneration/integral_generator.py", "IntegralGenerator.generate_geometry_tables", "f1382325d88d", canon, "site_geometry_tables",
+   ["site_invariant_geometry_tables"], "cells = {t: set()}: iterated through sorted() below"⟩,
+  ⟨"ffcx/codegeneration/integral_generator.py", "IntegralGenerator.generate_geometry_tables", "cfd5e52c98f8", canon, "site_geometry_tables",
+   ["site_invariant_geometry_tables"], "for c in sorted(cell_list)"⟩,
+  ⟨"ffcx/codegeneration/expression_generator.py", "ExpressionGenerator.generate_geometry_tables", "f1382325d88d", canon, "site_geometry_tables",
+   ["site_invariant_geometry_tables"], "cells = {t: set()}"⟩,
+  ⟨"ffcx/codegeneration/expression_generator.py", "ExpressionGenerator.generate_geometry_tables", "cfd5e52c98f8", canon, "site_geometry_tables",
+   ["site_invariant_geometry_tables"], "for c in sorted(cell_list)"⟩,
+  ⟨"ffcx/codegeneration/symbols.py", "FFCXBackendSymbols.__init__", "ad683a959773", counter, "domainNumber",
+   ["counters_fresh", "site_invariant_jacobian_symbol"], "self.domain_numbers = {}: per-kernel numbering of domains -> J<n> names"⟩,
   -- ffcx/analysis.py
   ⟨"ffcx/analysis.py", "analyze_ufl_objects", "3dec10c9b5a4", irrelevant, "site_element_dimensions",
    ["site_invariant_element_dimensions"],
@@ -345,10 +391,6 @@ def modelledSites : List Modelled := [
    ["counters_fresh", "site_invariant_temp_symbols"], "self.symbol_counters = defaultdict(int)"⟩,
   ⟨"ffcx/codegeneration/expression_generator.py", "ExpressionGenerator.__init__", "7dde9c93bb12", counter, "generatorInstances",
    ["counters_fresh"], "self.shared_symbols"⟩,
-  ⟨"ffcx/codegeneration/expression_generator.py", "ExpressionGenerator.generate_geometry_tables", "f1382325d88d", leak, "site_geometry_tables",
-   ["site_geometry_tables_counterexample", "site_geometry_tables_partial"], "cells = {t: set()}: the sets iterated two lines below"⟩,
-  ⟨"ffcx/codegeneration/expression_generator.py", "ExpressionGenerator.generate_geometry_tables", "97f1221ead55", leak, "site_geometry_tables",
-   ["site_geometry_tables_counterexample", "site_geometry_tables_partial"], "for c in cell_list: one table per cell name, set order (needs two cell names for one quantity)"⟩,
   -- integral_generator.py
   ⟨"ffcx/codegeneration/integral_generator.py", "IntegralGenerator.__init__", "af1b7e237096", oblivious, "site_ufl_names",
    ["site_invariant_ufl_names"], "self._ufl_names: only .add, never read"⟩,
@@ -360,12 +402,6 @@ def modelledSites : List Modelled := [
    ["counters_fresh", "site_invariant_temp_symbols"], "self.symbol_counters = defaultdict(int)"⟩,
   ⟨"ffcx/codegeneration/integral_generator.py", "IntegralGenerator.init_scopes", "830c02370e20", counter, "generatorInstances",
    ["counters_fresh"], "self.scopes"⟩,
-  ⟨"ffcx/codegeneration/integral_generator.py", "IntegralGenerator.generate_geometry_tables", "f1382325d88d", leak, "site_geometry_tables",
-   ["site_geometry_tables_counterexample", "site_geometry_tables_partial"], "cells = {t: set()}"⟩,
-  ⟨"ffcx/codegeneration/integral_generator.py", "IntegralGenerator.generate_geometry_tables", "97f1221ead55", leak, "site_geometry_tables",
-   ["site_geometry_tables_counterexample", "site_geometry_tables_partial"], "for c in cell_list"⟩,
-  ⟨"ffcx/codegeneration/integral_generator.py", "IntegralGenerator.generate_block_parts", "35311c869c34", leak, "site_block_inputs",
-   ["site_block_inputs_counterexample", "site_block_inputs_partial"], "input = list(set(input)) -> // Inputs: of Tensor Computation (F9)"⟩,
   -- jit.py
   ⟨"ffcx/codegeneration/jit.py", "compile_forms", "9589fd358acc", canon, "site_sorted_set",
    ["site_invariant_jit_argument_numbers"], "tuple(sorted(set(a.number() ...)))"⟩,
@@ -392,15 +428,9 @@ def modelledSites : List Modelled := [
   ⟨"ffcx/codegeneration/lnodes.py", "Section.__init__", "4428e5e1ae9b", counter, "generatorInstances", ["counters_fresh"], "node-local list"⟩,
   ⟨"ffcx/codegeneration/lnodes.py", "StatementList.__init__", "4428e5e1ae9b", counter, "generatorInstances", ["counters_fresh"], "node-local list"⟩,
   -- optimizer.py
-  ⟨"ffcx/codegeneration/optimizer.py", "fuse_sections", "35311c869c34", leak, "site_fuse_inputs",
-   ["site_fuse_inputs_counterexample", "site_fuse_inputs_partial"], "input = list(set(input)) -> // Inputs: (F9)"⟩,
-  ⟨"ffcx/codegeneration/optimizer.py", "fuse_sections", "9fd6014ed589", leak, "site_fuse_outputs",
-   ["site_fuse_outputs_counterexample", "site_fuse_outputs_partial"], "output = list(set(output)) -> // Outputs: (F9)"⟩,
   ⟨"ffcx/codegeneration/optimizer.py", "optimize", "9016ff363311", irrelevant, "-", [],
    "code[i] = section on the list passed by the generator (built for this call)"⟩,
   -- symbols.py
-  ⟨"ffcx/codegeneration/symbols.py", "FFCXBackendSymbols.J_component", "89a4aa48222c", leak, "site_jacobian_symbol",
-   ["site_jacobian_symbol_counterexample", "site_jacobian_symbol_partial"], "J{mesh.ufl_id()}: UFL's global Mesh counter (F9)"⟩,
   ⟨"ffcx/codegeneration/symbols.py", "FFCXBackendSymbols.__init__", "8a81f7c616c0", counter, "generatorInstances", ["counters_fresh"], "per-backend cache"⟩,
   ⟨"ffcx/codegeneration/symbols.py", "FFCXBackendSymbols.__init__", "e49442a9ee5e", counter, "generatorInstances", ["counters_fresh"], "per-backend cache"⟩,
   -- ir/analysis
@@ -429,9 +459,6 @@ def modelledSites : List Modelled := [
   ⟨"ffcx/ir/analysis/valuenumbering.py", "ValueNumberer.__init__", "74003fd263a9", counter, "generatorInstances", ["counters_fresh"], "per-numberer list"⟩,
   ⟨"ffcx/ir/analysis/valuenumbering.py", "ValueNumberer.__init__", "1e22ae664e05", counter, "generatorInstances", ["counters_fresh"], "per-numberer dispatch dict"⟩,
   -- ir/elementtables.py
-  ⟨"ffcx/ir/elementtables.py", "build_optimized_tables", "a9c2a49edd60", leak, "site_table_numbering",
-   ["site_table_numbering_counterexample", "site_table_numbering_partial"],
-   "sort_elements(set(extract_sub_elements(...))): ties between unrelated elements keep set order -> FE<n> names (F9)"⟩,
   ⟨"ffcx/ir/elementtables.py", "build_optimized_tables", "1c31ed48cc2f", irrelevant, "-", [],
    "t['array'] = ... on the dict just returned by get_ffcx_table_values"⟩,
   -- ir/integral.py
